@@ -19,7 +19,8 @@ def run(ctx):
                        "(quick: channels 0..17,127,128,254,255; thorough: all 256), NoteOff/ProgramChange/AfterTouch: 256 x 256, Pitchbend: channels x all 65536 int16, "
                        "all 65536 SPP, all 256 MTC / SongSelect, Tune) compared with tables TLC exported from MidiMessage.tla (clamp tables, pitch/SPP encodings); "
                        "every accessor on every result; every in-range message through the testdrv loopback.  T: all boundary tuples + random tuples as full records "
-                       "(bytes, all accessor answers, loopback) judged by TLC on the concrete arguments.  distinct by (fn,args); non-trivial = some argument out of range or a 14-bit value")
+                       "(bytes, all accessor answers, loopback -- half after a context message, a quarter through the sender of midi.SendTo after a message with the same status byte and a "
+                       "system common message in between) judged by TLC on the concrete arguments.  distinct by (fn,args); non-trivial = some argument out of range or a 14-bit value")
     ctx.cov["checker_cmd"] = "tlc MC_MidiMessage ; tlc Export_MidiTables -> vh_msg ctor-sweep ; tlc Trace_Msg"
     ctx.cov["trusted_base"] = ["TLC", "spec/MidiMessage.tla (MIDI 1.0 status table, clamping rule from the property)",
                                "Go composition of per-argument tables (Tables.expect / checkCall), re-validated by TLC on every boundary tuple and >= 10^4 random tuples per run"]
@@ -50,8 +51,9 @@ def run(ctx):
         r = recs[idx]
         why = "bytes" if not info["wellformed"] or (info["expected"] and info["expected"] != r["bytes"]) else ("accessor" if not info["accOk"] else ("loopback" if not info["loopOk"] else "panic"))
         fails.append(Failure("call:%s:%s" % (r["fn"], why), "%s%s -> bytes %s expected %s; accessors ok=%s; loopback %s; panic %r" %
-                             (r["fn"] + ("[after %s%s]" % (r["ctxfn"], tuple(r["ctxargs"])) if r.get("ctxfn") else ""), tuple(r["args"]), r["bytes"], info["expected"], [k for k, v in r["acc"].items() if v["ok"]], r["loop"], r["panic"]),
-                             {"family": "msg", "record": {"ev": "call", "fn": r["fn"], "args": r["args"], "ctxfn": r.get("ctxfn", ""), "ctxargs": r.get("ctxargs", [])}}))
+                             (r["fn"] + ("[after %s%s%s%s]" % (r["ctxfn"], tuple(r["ctxargs"]), (" and %s%s" % (r["ctx2fn"], tuple(r["ctx2args"]))) if r.get("ctx2fn") else "", " through midi.SendTo" if r.get("via") else "") if r.get("ctxfn") else ""), tuple(r["args"]), r["bytes"], info["expected"], [k for k, v in r["acc"].items() if v["ok"]], r["loop"], r["panic"]),
+                             {"family": "msg", "record": {"ev": "call", "fn": r["fn"], "args": r["args"], "ctxfn": r.get("ctxfn", ""), "ctxargs": r.get("ctxargs", []),
+                                                                "ctx2fn": r.get("ctx2fn", ""), "ctx2args": r.get("ctx2args", []), "via": r.get("via", "")}}))
     ctx.report(fails, lambda f: confirm(ctx, f))
 
 
